@@ -292,6 +292,37 @@ theorem inv_matchIncoming {s : Store} (h : Inv s) (a : Val) (au : Bool) (p : Pat
       · exact absurd rfl h'
       · exact holdsAddr_false h' j (h.mem_refs.mpr hjlt) (by simp) rj hj
 
+theorem inv_saveBad {s : Store} (h : Inv s) {i : Nat} {pre : Patch} (e : Err) (hp : PatchOk s i pre) :
+    Inv (s.saveBad (some i) pre e).1 := by
+  rcases saveBad_cases s (some i) pre e with ⟨e', he⟩ | ⟨i', r, hi', hr, he⟩ <;> rw [he]
+  · exact h
+  · cases hi'
+    exact inv_patch_obj h hr hp
+
+/-- a malformed patch under the preconditions keeps the invariant: in particular no record leaves the
+dictionary, whether or not the call was made with `auto_create` -/
+theorem inv_matchIncomingBad {s : Store} (h : Inv s) (a : Val) (au : Bool) (pre : Patch) (e : Err)
+    (hok : okPatch s (s.first (fun r => r.addressIn == a)) pre = true) :
+    Inv (s.matchIncomingBad a au pre e).1 := by
+  rcases matchIncomingBad_cases s a au pre e with ⟨i, hf, he⟩ | ⟨hf, _, he⟩ | ⟨_, _, he⟩ <;> rw [he]
+  · rw [hf] at hok
+    exact inv_saveBad h e (patchOk_of_okPatch h hok)
+  · rw [hf] at hok
+    refine inv_saveBad (inv_create h hf) e ?_
+    simp only [okPatch, List.all_eq_true, Bool.and_eq_true, Bool.or_eq_true, bne_iff_ne, ne_eq,
+      Bool.not_eq_true'] at hok
+    refine ⟨fun e he => (hok e he).1, ?_⟩
+    intro v hv j rj hjn hj
+    have hjlt : j < s.objs.length := by
+      have := getElem?_lt_of_some hj
+      simp only [Store.create, List.length_append, List.length_singleton] at this hjn
+      omega
+    rw [create_objs_old hjlt] at hj
+    rcases (hok _ hv).2 with h' | h'
+    · exact absurd rfl h'
+    · exact holdsAddr_false h' j (h.mem_refs.mpr hjlt) (by simp) rj hj
+  · exact h
+
 theorem inv_step {s : Store} (h : Inv s) (op : Op) (hok : okOp s op = true) : Inv (step s op).1 := by
   cases op with
   | matchIncoming a au p => exact inv_matchIncoming h a au p hok
@@ -334,6 +365,12 @@ theorem inv_step {s : Store} (h : Inv s) (op : Op) (hok : okOp s op = true) : In
     · exact h
     · rename_i r hr
       exact inv_patch_obj h hr (patchOk_of_okPatch h hok)
+  | matchIncomingBad a au pre e => exact inv_matchIncomingBad h a au pre e hok
+  | saveBad rpt pre e =>
+    cases rpt with
+    | none => exact h
+    | some i => exact inv_saveBad h e (patchOk_of_okPatch h hok)
+  | patchBad i pre e => exact inv_saveBad h e (patchOk_of_okPatch h hok)
 
 theorem okHist_cons (s : Store) (op : Op) (t : List Op) :
     okHist s (op :: t) = (okOp s op && okHist (step s op).1 t) := rfl
@@ -450,6 +487,27 @@ theorem step_obj_cases (s : Store) (op : Op) (x : Nat) (r : Rec) (hr : s.objs[x]
     subst ht
     simp only [step, hr, Op.patchOf]
     exact ⟨_, List.getElem?_set_self hx, Or.inr (Or.inl rfl)⟩
+  | matchIncomingBad a au pre e =>
+    simp only [target] at ht
+    simp only [step, Op.patchOf]
+    rcases matchIncomingBad_cases s a au pre e with ⟨i, hf, he⟩ | ⟨hf, hau, he⟩ | ⟨hf, hau, he⟩ <;> rw [he]
+    · rw [hf] at ht
+      cases ht
+      exact ⟨_, (saveBad_target s x pre e r hr).1, Or.inr (Or.inl rfl)⟩
+    · rw [hf, hau] at ht
+      simp only [if_true, Option.some.injEq] at ht; omega
+    · rw [hf, hau] at ht
+      simp at ht
+  | saveBad rpt pre e =>
+    simp only [target] at ht
+    subst ht
+    simp only [step, Op.patchOf]
+    exact ⟨_, (saveBad_target s x pre e r hr).1, Or.inr (Or.inl rfl)⟩
+  | patchBad i pre e =>
+    simp only [target, Option.some.injEq] at ht
+    subst ht
+    simp only [step, Op.patchOf]
+    exact ⟨_, (saveBad_target s x pre e r hr).1, Or.inr (Or.inl rfl)⟩
 
 /-- the operation's patch does not name the data member `f` -/
 def Op.names (op : Op) (f : Field) : Bool := op.patchOf.any (fun e => e.1 == .field f)
